@@ -96,9 +96,42 @@ def run(ctx):
     r4(ctx)
     r5(ctx)
     r6(ctx, bearing)
+    ctx.rule("R8", "a variable occurrence in a fix/message is replaced from the environment map of its own class: single capture, ellipsis capture, transformed value")
+    r8(ctx)
     ctx.rule("R7", "the kind set the acceptance test looks at is the kind set of what will be matched (every Matcher impl: potential_kinds covers match_node_with_env; "
              "a `matches` reference resolves to the same rule in both) — obligations shared with C01 R1/R2")
     r7(ctx)
+
+
+GETTER_OF = {"Single": "get_match", "Multiple": "get_multiple_matches", "Transformed": "get_transformed"}
+
+
+def r8(ctx):
+    """The second half of C12: 'every variable occurrence in the fix is actually replaced by its captured or transformed value'.  The
+    template keeps, per occurrence, a MetaVarExtract of one of three classes; the environment keeps three maps.  Structural part: in
+    the function that expands an occurrence, each class arm reads the map of the same class, and the class of an occurrence whose name
+    is a transformation name is Transformed (the transform names reach the classifier — R4)."""
+    prog = ctx.prog
+    f0 = ctx.anchor("R8", r"^ast_grep_core::replacer::template::maybe_get_var$")
+    if not f0:
+        return
+    f = prog.inlined(f0)
+    sws = self_switches(f, r"replacer::MetaVarExtract", param=2)
+    ctx.ob("R8", "maybe_get_var/dispatch on the occurrence's class", len(sws) >= 1, "%d switch(es) over MetaVarExtract" % len(sws), where=f0.loc())
+    if not sws:
+        return
+    bi, si = sws[0]
+    arms = arm_blocks(f, si)
+    for v, getter in sorted(GETTER_OF.items()):
+        if v not in arms:
+            ctx.ob("R8", "maybe_get_var/%s" % v, False, "no arm for MetaVarExtract::%s" % v, where=f0.loc())
+            continue
+        names = {c.name for c in calls_in(prog, f, arms[v]) if c.name in GETTER_OF.values()}
+        ok = names == {getter}
+        ctx.ob("R8", "maybe_get_var/%s reads %s" % (v, getter), ok,
+               "the %s arm takes its text from MetaVarEnv::%s" % (v, getter) if ok else
+               "the %s arm reads %s instead of exactly %s: an occurrence of that class is expanded from another class's map (empty text, or text of a different variable kind)" % (v, sorted(names) or "no environment map", getter),
+               where=f0.loc())
 
 
 def r7(ctx):
